@@ -106,7 +106,7 @@ _WE_MOD = ["ShardProgress.shard", "ShardProgress.written_examples",
            "Shard._shard_writer", "Writer.closed", "FileInfo.hash_checksums",
            "_DatasetFillerContext._current_shards_progress@self",
            "_DatasetFillerContext._shards_lists@self", "ShardsList.shard_files",
-           "ShardsList.number_of_examples", "ghost:fs"]
+           "ShardsList.number_of_examples", "ghost:fs", "ghost:cert"]
 
 contract(MF, CTX + ".write_example", props=["C10", "C11", "C18", "C04"],
     params={"values": "U", "split": "U", "custom_metadata": "optref:DictObj"},
